@@ -10,6 +10,7 @@ import (
 	vrt "github.com/gotid/god"
 	"github.com/gotid/god/lib/logx"
 	"github.com/gotid/god/lib/stat"
+	"github.com/gotid/god/lib/timex"
 )
 
 const (
@@ -148,6 +149,21 @@ func (s *shSys) apply(op string) bool {
 		s.cpuHi = false
 	case "allow":
 		s.allow()
+	case "hot":
+		// a short overload episode in one step: CPU high, in-flight driven above capacity,
+		// one more arrival (rejected if the shedder is right to), CPU back to normal
+		if s.cpuHi {
+			return false
+		}
+		s.cpuHi = true
+		for i := 0; i < 40; i++ {
+			s.allow()
+		}
+		for i := 0; i < 5 && len(s.promises) > 0; i++ {
+			s.complete(0, true)
+		}
+		s.allow()
+		s.cpuHi = false
 	case "allow20":
 		for i := 0; i < 20; i++ {
 			s.allow()
@@ -227,7 +243,15 @@ func (s *shSys) canon() string {
 		}
 		over = fmt.Sprint(d)
 	}
-	return fmt.Sprintf("cpu=%v|out=%v|avg=%.4f|over=%s|dr=%v|ph=%v|p=%s|rt=%s", s.cpuHi, st, s.avg, over, s.sh.droppedRecently.True(), (now-s.pass.t0)%shBucket, win(&s.pass), win(&s.rt))
+	realOver := "never"
+	if ot := s.sh.overloadTime.Load(); ot != 0 {
+		d := timex.Since(ot)
+		if d > time.Second {
+			d = time.Second
+		}
+		realOver = fmt.Sprint(d)
+	}
+	return fmt.Sprintf("realover=%s|fl=%d|cpu=%v|out=%v|avg=%.4f|over=%s|dr=%v|ph=%v|p=%s|rt=%s", realOver, s.sh.flying, s.cpuHi, st, s.avg, over, s.sh.droppedRecently.True(), (now-s.pass.t0)%shBucket, win(&s.pass), win(&s.rt))
 }
 
 func TestVerifShedder(t *testing.T) {
@@ -235,7 +259,7 @@ func TestVerifShedder(t *testing.T) {
 	logx.Disable()
 	DisableLog()
 	stat.SetReporter(nil)
-	ops := []string{"allow", "load", "allow20", "pass1", "passnew", "pass5", "fail1", "settle", "cpuhi", "cpulo", "t10", "t100", "t1000", "t5000"}
+	ops := []string{"allow", "load", "allow20", "pass1", "passnew", "pass5", "fail1", "settle", "cpuhi", "cpulo", "hot", "t10", "t100", "t600", "t1000", "t5000"}
 	depth := 5
 	if vrt.Thorough() {
 		depth = 7
